@@ -121,8 +121,8 @@ CHECKS = {
             "for an expression fault the received bytes are compared with the document of the same arguments without the fault (the failing call is the only difference)",
             "the templ.Error line must lie inside some (string,error) expression of the file (if several such expressions exist the check does not tell them apart)",
         ],
-        "quick": {"timeout": 900, "runs": [{"run": "^TestPropFailStop$", "rapid_checks": 4}, {"run": "^TestProp(FixtureHistories|StyleValues)$", "rapid_checks": 3000}]},
-        "thorough": {"timeout": 3400, "shards": 12, "runs": [{"run": "^TestPropFailStop$", "rapid_checks": 25}, {"run": "^TestProp(FixtureHistories|StyleValues)$", "rapid_checks": 40000}]},
+        "quick": {"timeout": 900, "runs": [{"run": "^TestPropFailStop$", "rapid_checks": 4}, {"run": "^TestProp(FixtureHistories|StyleValues|Blocks)$", "rapid_checks": 3000}]},
+        "thorough": {"timeout": 3400, "shards": 12, "runs": [{"run": "^TestPropFailStop$", "rapid_checks": 25}, {"run": "^TestProp(FixtureHistories|StyleValues|Blocks)$", "rapid_checks": 40000}]},
     },
     "C11": {
         "pkg": "./checks/c11",
